@@ -212,7 +212,7 @@ func TestFaultEnumeration(t *testing.T) {
 	}
 	rec := ev.New(t, prop, "fault-enumeration", "rapid: random tree + plan (delete / replace any kind / swap file content or exec bit / create) + configuration (modes, ownership id:0, staging on tmpfs, missing staged file); each plan is run fault-free, then once per hooked filesystem call k with that call failing (EIO/EACCES/ENOSPC/EPERM/EMFILE/EROFS), once per k with the context cancelled at call k, and the same again with the first rename failing EXDEV (cross-device fallback); after every run a cold scan must equal scan-before with the reported results substituted; non-trivial: the injected fault was reached and some result is partial (neither Old nor New)")
 	base := t.TempDir()
-	ev.Check(t, rec, 40, 2500, func(rt *rapid.T) {
+	ev.Check(t, rec, 80, 2500, func(rt *rapid.T) {
 		c := drawBase(rt)
 		check := func(cc *Case, class string) outcome {
 			o := run(cc, base)
